@@ -36,8 +36,11 @@ Proof. exact collect_safe_lemma. Qed.
    every object the program can reach -- through a register inside the window of ANY active frame,
    the function or closure of ANY active frame, a global (by name or by index), an open or current
    upvalue, and from there along any stored reference -- unchanged; frees exactly the rest; leaves
-   no layout snapshot behind; and every such place still refers to the object it referred to. *)
-Theorem C03_vm_collect_safe : forall s h,
+   no layout snapshot behind; and every such place still refers to the object it referred to.
+   Premise: every frame records the register count of the function it runs (frames_consistent;
+   checked on every dumped state and at every audited collection; C03_frame_count_premise_needed
+   shows it cannot be dropped). *)
+Theorem C03_vm_collect_safe : forall s h, frames_consistent s ->
   exists s' h', vm_collect s h = Some (s', h')
     /\ (forall i o, program_reachable s h i -> get h i = Some o -> get h' i = Some o)
     /\ (forall i, ~ program_reachable s h i -> get h' i = None)
@@ -50,7 +53,7 @@ Proof. exact vm_collect_safe_lemma. Qed.
    reach before, index by index the same objects -- the semantic core of "output, result and errors
    do not depend on when collections happen" (the consequence for whole program runs is explored
    by the schedule differential, not proved: there is no interpreter model here) *)
-Theorem C03_collection_invisible : forall s h s' h',
+Theorem C03_collection_invisible : forall s h s' h', frames_consistent s ->
   vm_collect s h = Some (s', h') ->
   (forall i, program_reachable s' h' i <-> program_reachable s h i)
   /\ (forall i, program_reachable s h i -> get h' i = get h i).
@@ -68,8 +71,17 @@ Theorem C03_sweep_preserves_wf : forall h m, heap_wf h -> heap_wf (sweep h m).
 Proof. exact sweep_wf. Qed.
 
 (* VM::collect's root list = the specification's places, in both directions *)
-Theorem C03_collect_roots_exact : forall s p, In p (collect_roots s) <-> holds_ref s p.
-Proof. intros s p. split; [exact (collect_roots_sound s p)|exact (collect_roots_complete s p)]. Qed.
+Theorem C03_collect_roots_exact : forall s p, frames_consistent s ->
+  (In p (collect_roots s) <-> holds_ref s p).
+Proof. intros s p H. split; [exact (collect_roots_sound s p H)|exact (collect_roots_complete s p H)]. Qed.
+
+(* the premise is needed: a frame that records fewer registers than its function uses (what a
+   stale call-site cache entry produced under seeded change C03_r3_2) loses a live variable *)
+Theorem C03_frame_count_premise_needed :
+  exists s h i o s' h',
+    ~ frames_consistent s /\ program_reachable s h i /\ get h i = Some o
+    /\ vm_collect s h = Some (s', h') /\ get h' i = None.
+Proof. exact frame_count_premise_needed_lemma. Qed.
 
 (* the field table regenerated from the Rust source agrees with the model: every field of
    `struct VM` whose type can contain a Value/GcRef has a disposition, collect reads exactly the
